@@ -53,7 +53,7 @@ Proof.
 Qed.
 Lemma q_close r line val tl c :
   lex_go (QUOTE :: r) line val tl c true false =
-  {| t_file := 0; t_line := tl; t_text := rev val |} :: lex_go r line [] 0%Z false false false.
+  {| t_file := 0; t_line := tl; t_text := rev val; t_imp := 0; t_envnl := 0%Z |} :: lex_go r line [] 0%Z false false false.
 Proof. reflexivity. Qed.
 
 Lemma count_nl_cons c t : count_nl (c :: t) = (nlz c + count_nl t)%Z.
@@ -62,7 +62,7 @@ Proof. reflexivity. Qed.
 Lemma quoted_scan : forall n t, (length t <= n)%nat -> okq t = true ->
   forall rest line val tline comment,
   lex_go (esc t ++ QUOTE :: rest) line val tline comment true false =
-  {| t_file := 0; t_line := tline; t_text := rev val ++ t |} ::
+  {| t_file := 0; t_line := tline; t_text := rev val ++ t; t_imp := 0; t_envnl := 0%Z |} ::
   lex_go rest (line + count_nl t)%Z [] 0%Z false false false.
 Proof.
   induction n as [|n IH]; intros t Hlen Hok rest line val tline comment.
@@ -93,7 +93,7 @@ Qed.
 Lemma lex_one t nl rest line :
   okq t = true ->
   lex_go (quote_text t ++ sep_of nl :: rest) line [] 0%Z false false false =
-  {| t_file := 0; t_line := line; t_text := t |} ::
+  {| t_file := 0; t_line := line; t_text := t; t_imp := 0; t_envnl := 0%Z |} ::
   lex_go rest (line + count_nl t + (if nl then 1 else 0))%Z [] 0%Z false false false.
 Proof.
   intros Hok. unfold quote_text. cbn [app lex_go].
@@ -118,7 +118,7 @@ Fixpoint lines_from (line : Z) (ts : list (list N * bool)) : list Z :=
 Lemma lex_go_print : forall ts line,
   forallb (fun p => okq (fst p)) ts = true ->
   lex_go (print ts) line [] 0%Z false false false =
-  map (fun p => {| t_file := 0; t_line := fst p; t_text := snd p |})
+  map (fun p => {| t_file := 0; t_line := fst p; t_text := snd p; t_imp := 0; t_envnl := 0%Z |})
       (combine (lines_from line ts) (map fst ts)).
 Proof.
   induction ts as [|[t nl] ts IH]; intros line Hok; [reflexivity|].
@@ -239,20 +239,45 @@ Definition exp_tok (t : token) : token := retext t (renv env (t_text t)).
 Definition push_all (m : list (bytes * list token)) (dir : bytes) (ts : list token) :=
   fold_left (fun m t => add_btok m dir t) ts m.
 
-(* the remainder [seg] of a directive line after the token [prev] (as it stands in the token list),
-   at brace depth [nest]: braces balance, a token at depth 0 is on the line of its predecessor, a
-   closing brace never comes at depth 0 and no token inside a sub-block is an `import` at the start
-   of a line *)
+(* substituting environment values never changes the line structure: a token ends on the line
+   where it was written, whatever line breaks the values contain *)
+Lemma tok_breaks_retext t txt : tok_breaks (retext t txt) = tok_breaks t.
+Proof. unfold tok_breaks, retext. cbn [t_text t_envnl]. lia. Qed.
+Lemma nnl_retext_l a b txt : next_on_new_line (retext a txt) b = next_on_new_line a b.
+Proof. unfold next_on_new_line. rewrite tok_breaks_retext. reflexivity. Qed.
+Lemma nnl_retext_r a b txt : next_on_new_line a (retext b txt) = next_on_new_line a b.
+Proof. reflexivity. Qed.
+Lemma same_line_retext_l a b txt : same_line (retext a txt) b = same_line a b.
+Proof. unfold same_line. rewrite tok_breaks_retext. reflexivity. Qed.
+Lemma same_line_retext_r a b txt : same_line a (retext b txt) = same_line a b.
+Proof. reflexivity. Qed.
+Lemma nnl_exp_l a b : next_on_new_line (exp_tok a) b = next_on_new_line a b.
+Proof. apply nnl_retext_l. Qed.
+
+(* the remainder [seg] of a directive line after the token [prev], AS WRITTEN (before environment
+   expansion), at brace depth [nest]: braces balance, a token at depth 0 is on the line of its
+   predecessor, a closing brace never comes at depth 0 and no token inside a sub-block is an
+   `import` at the start of a line *)
 Fixpoint line_ok (prev : token) (seg : list token) (nest : Z) : bool :=
   match seg with
   | [] => (nest =? 0)%Z
   | x :: r =>
-    if beq (t_text x) LBRACE then line_ok (exp_tok x) r (nest + 1)
+    if beq (t_text x) LBRACE then line_ok x r (nest + 1)
     else if next_on_new_line prev x && (nest =? 0)%Z then false
-    else if beq (t_text x) RBRACE then (0 <? nest)%Z && line_ok (exp_tok x) r (nest - 1)
+    else if beq (t_text x) RBRACE then (0 <? nest)%Z && line_ok x r (nest - 1)
     else if beq (t_text x) IMPORT && next_on_new_line prev x then false
-    else line_ok (exp_tok x) r nest
+    else line_ok x r nest
   end.
+Lemma line_ok_exp_prev p seg n : line_ok (exp_tok p) seg n = line_ok p seg n.
+Proof. destruct seg as [|x r]; [reflexivity|]. cbn [line_ok]. rewrite nnl_exp_l. reflexivity. Qed.
+Lemma last_map_exp : forall seg d, seg <> [] -> last (map exp_tok seg) d = exp_tok (last seg d).
+Proof.
+  induction seg as [|x r IH]; intros d H; [congruence|]. destruct r as [|y r']; [reflexivity|].
+  change (last (map exp_tok (x :: y :: r')) d) with (last (map exp_tok (y :: r')) d).
+  change (last (x :: y :: r') d) with (last (y :: r') d). apply IH. discriminate.
+Qed.
+Lemma nnl_last_exp seg d u : next_on_new_line (last (map exp_tok seg) d) u = next_on_new_line (last seg d) u.
+Proof. destruct seg as [|x r]; [reflexivity|]. rewrite last_map_exp by discriminate. apply nnl_exp_l. Qed.
 
 (* what follows a directive line: nothing, or a token that starts a new line and is not `{` *)
 Definition post_ok (prev : token) (post : list token) : Prop :=
@@ -288,12 +313,12 @@ Proof.
     set (st1 := set_cursor st (p_cursor st + 1)) in *.
     rewrite (pval_pos _ _ _ _ Hpos1), (is_new_line_pos _ _ _ _ _ Hpos1), (tok_at_pos _ _ _ _ Hpos1).
     cbn [line_ok] in Hok.
-    assert (Hstep : forall n', line_ok (exp_tok x) r n' = true ->
+    assert (Hstep : forall n', line_ok x r n' = true ->
       directive_loop env maxi globs files f
         (push_tok (set_tok_text st1 (p_cursor st1) (t_text (retext x (renv env (t_text x))))) dir (retext x (renv env (t_text x)))) dir n' =
       POk (st_with st (pre ++ cur :: map exp_tok (x :: r) ++ post) (Z.of_nat (length pre + length (x :: r)))
                (push_all (p_btoks st) dir (map exp_tok (x :: r))))).
-    { intros n' Hok'.
+    { intros n' Hok'. rewrite <- line_ok_exp_prev in Hok'.
       assert (Hpos2 : at_pos (push_tok (set_tok_text st1 (p_cursor st1) (t_text (exp_tok x))) dir (exp_tok x))
                              (pre ++ [cur]) (exp_tok x) (r ++ post)).
       { split.
@@ -358,11 +383,11 @@ Definition follow_ok (prev u : token) : bool := negb (beq (t_text u) LBRACE) && 
 Definition head_after (ls : list dline) (rb : token) : token :=
   match ls with l :: _ => fst l | [] => rb end.
 
-Lemma post_ok_follow prev ls rb post : follow_ok prev (head_after ls rb) = true ->
-  post_ok prev (flat_lines ls ++ rb :: post).
+Lemma post_ok_follow seg d ls rb post : follow_ok (last seg d) (head_after ls rb) = true ->
+  post_ok (last (map exp_tok seg) d) (flat_lines ls ++ rb :: post).
 Proof.
-  unfold follow_ok. intros H. apply andb_true_iff in H as [H1 H2]. apply negb_true_iff in H1.
-  destruct ls as [|[d sg] r]; cbn; auto.
+  unfold follow_ok. rewrite <- (nnl_last_exp seg d). intros H. apply andb_true_iff in H as [H1 H2]. apply negb_true_iff in H1.
+  destruct ls as [|[d' sg] r]; cbn; auto.
 Qed.
 
 Lemma directive_ok done d seg post fuel st :
@@ -387,7 +412,7 @@ Fixpoint lines_ok (ls : list dline) (rb : token) : bool :=
   | [] => true
   | (d, seg) :: r =>
       negb (beq (t_text d) RBRACE) && negb (beq (t_text d) IMPORT) && line_ok d seg 0 &&
-      follow_ok (last (map exp_tok seg) d) (head_after r rb) && lines_ok r rb
+      follow_ok (last seg d) (head_after r rb) && lines_ok r rb
   end.
 
 Lemma flat_lines_cons l r : flat_lines (l :: r) = fst l :: snd l ++ flat_lines r.
@@ -424,7 +449,7 @@ Proof.
     set (st1 := set_cursor st (p_cursor st + 1)) in *.
     assert (Hend1 : at_end st1 (done ++ [d]) (seg ++ flat_lines r ++ rb :: post)).
     { apply at_end_pos. rewrite <- app_assoc in Hpos. exact Hpos. }
-    rewrite (directive_ok _ _ _ _ f _ Hend1 Hline ltac:(lia) (post_ok_follow _ _ _ _ Hfol)).
+    rewrite (directive_ok _ _ _ _ f _ Hend1 Hline ltac:(lia) (post_ok_follow _ _ _ _ _ Hfol)).
     match goal with |- context [directives _ _ _ _ f ?s] => set (st2 := s) end.
     assert (Hend2 : at_end st2 (done ++ exp_line (d, seg)) (flat_lines r ++ rb :: post)).
     { split; [reflexivity|]. reflexivity. }
@@ -632,7 +657,7 @@ Definition adv (line : Z) (t : ltok) : Z := (line + count_nl (fst t) + (if snd t
 Fixpoint toks_from (f : N) (line : Z) (ts : list ltok) : list token :=
   match ts with
   | [] => []
-  | t :: r => {| t_file := f; t_line := line; t_text := fst t |} :: toks_from f (adv line t) r
+  | t :: r => {| t_file := f; t_line := line; t_text := fst t; t_imp := 0; t_envnl := 0%Z |} :: toks_from f (adv line t) r
   end.
 Fixpoint end_line (line : Z) (ts : list ltok) : Z :=
   match ts with [] => line | t :: r => end_line (adv line t) r end.
@@ -666,7 +691,7 @@ Definition a_flat (b : ablock) : list ltok :=
   a_key b :: a_keys b ++ LB :: concat (map a_line_flat (a_lines b)) ++ [RB].
 Definition a_flat_all (bs : list ablock) : list ltok := concat (map a_flat bs).
 
-Definition mk_tok (f : N) (line : Z) (t : ltok) : token := {| t_file := f; t_line := line; t_text := fst t |}.
+Definition mk_tok (f : N) (line : Z) (t : ltok) : token := {| t_file := f; t_line := line; t_text := fst t; t_imp := 0; t_envnl := 0%Z |}.
 Fixpoint annot_lines (f : N) (line : Z) (ls : list (ltok * list ltok)) : list dline :=
   match ls with
   | [] => []
@@ -748,9 +773,6 @@ Variable maxi : N.
 Variable globs : list ((N * bytes) * list N).
 Variable files : list (N * option (list token)).
 
-Definition same_line (a b : token) : bool :=
-  (t_file a =? t_file b) && (t_line a + count_nl (t_text a) =? t_line b)%Z.
-
 Lemma next_arg_yes st pre x y rest : at_pos st pre x (y :: rest) -> same_line x y = true ->
   next_arg st = (true, set_cursor st (p_cursor st + 1)).
 Proof.
@@ -761,7 +783,7 @@ Proof.
   destruct Hpos as [Ht Hc].
   destruct (p_cursor st <? 0)%Z eqn:E1; [apply Z.ltb_lt in E1; lia|].
   destruct (p_cursor st >=? plen st)%Z eqn:E2; [apply Z.geb_le in E2; lia|].
-  rewrite Hx, Hy. unfold same_line in Hs. rewrite Hs. reflexivity.
+  rewrite Hx, Hy. rewrite Hs. reflexivity.
 Qed.
 Lemma next_arg_no st pre x rest :
   at_pos st pre x rest -> match rest with [] => True | y :: _ => same_line x y = false end ->
@@ -779,19 +801,23 @@ Proof.
     rewrite Hn. reflexivity.
   - destruct (p_next_more _ _ _ _ _ Hpos) as [_ Hpos1]. pose proof (tok_at_pos _ _ _ _ Hpos1) as Hy.
     cbn [set_cursor p_cursor] in Hy. unfold tok_at in Hy. cbn [set_cursor p_tokens] in Hy. fold (tok_at st (p_cursor st + 1)) in Hy.
-    rewrite Hy. unfold same_line in Hs. rewrite Hs. reflexivity.
+    rewrite Hy. rewrite Hs. reflexivity.
 Qed.
 
 Definition st_imp (st : pst) (toks : list token) (c : Z) : pst :=
   {| p_tokens := toks; p_cursor := c; p_keys := p_keys st; p_btoks := p_btoks st; p_eof := p_eof st;
      p_snips := p_snips st; p_imports := (p_imports st + 1)%N |}.
 
-(* an import statement [imp arg] whose pattern resolves (through the glob oracle) to files *)
+(* the pattern names a defined snippet, or resolves (through the glob oracle) to files *)
+Definition resolves (st : pst) (arg : token) (pat : bytes) (toks : list token) : Prop :=
+  lookup_s (p_snips st) pat = Some toks \/
+  (lookup_s (p_snips st) pat = None /\ glob_ok pat = true /\
+   exists ids, ids <> [] /\ lookup_g globs (t_file arg) pat = Some ids /\ import_files files ids = POk toks).
+(* an import statement [imp arg] whose pattern resolves to the tokens [toks] *)
 Definition import_ready (st : pst) (imp arg : token) (post : list token) (pat : bytes) (toks : list token) : Prop :=
   same_line imp arg = true /\ renv env (t_text arg) = pat /\ pat <> [] /\
   match post with [] => True | y :: _ => same_line arg y = false end /\
-  lookup_s (p_snips st) pat = None /\ glob_ok pat = true /\
-  exists ids, ids <> [] /\ lookup_g globs (t_file arg) pat = Some ids /\ import_files files ids = POk toks.
+  resolves st arg pat toks.
 
 Lemma do_import_over st pre imp arg post pat toks :
   at_pos st pre imp (arg :: post) -> import_ready st imp arg post pat toks ->
@@ -808,9 +834,10 @@ Qed.
 Lemma do_import_ok st pre imp arg post pat toks :
   at_pos st pre imp (arg :: post) -> import_ready st imp arg post pat toks ->
   (maxi <? p_imports st + 1)%N = false ->
-  do_import env maxi globs files st = POk (st_imp st (pre ++ toks ++ post) (Z.of_nat (length pre))).
+  do_import env maxi globs files st =
+  POk (st_imp st (pre ++ map (set_imp (p_imports st + 1)) toks ++ post) (Z.of_nat (length pre))).
 Proof.
-  intros Hpos (Hs & Hpat & Hne & Hpost & Hsn & Hg & ids & Hids & Hlg & Hif) Hcap.
+  intros Hpos (Hs & Hpat & Hne & Hpost & Hres) Hcap.
   unfold do_import. rewrite (next_arg_yes _ _ _ _ _ Hpos Hs).
   destruct (p_next_more _ _ _ _ _ Hpos) as [_ Hpos1]. cbn [negb].
   set (st1 := set_cursor st (p_cursor st + 1)) in *.
@@ -831,16 +858,19 @@ Proof.
   replace (Nat.leb (length pre + 2) (length pre + S (S (length post)))) with true by (symmetry; apply Nat.leb_le; lia).
   cbn [andb skipn]. rewrite Nat.sub_0_r, firstn_app, Nat.sub_diag, firstn_all. cbn [firstn]. rewrite app_nil_r.
   rewrite skipn_app, skipn_all2 by lia. replace (length pre + 2 - length pre)%nat with 2%nat by lia. cbn [skipn app].
-  unfold imported_tokens. change (p_snips st1) with (p_snips st). rewrite Hsn, Hg. cbn [negb].
-  assert (Hf : tok_at st1 (p_cursor st1) = Some arg).
-  { apply (tok_at_pos st1 (pre ++ [imp]) arg post). split; [rewrite Ht1, <- app_assoc; reflexivity|rewrite app_length; cbn [length]; lia]. }
-  rewrite Hf, Hlg. destruct ids as [|i0 ids']; [congruence|]. rewrite Hif.
+  assert (Himp : imported_tokens globs files st1 (p0 :: pt) = POk toks).
+  { unfold imported_tokens. change (p_snips st1) with (p_snips st).
+    destruct Hres as [Hsn|(Hsn & Hg & ids & Hids & Hlg & Hif)]; rewrite Hsn; [reflexivity|]. rewrite Hg. cbn [negb].
+    assert (Hf : tok_at st1 (p_cursor st1) = Some arg).
+    { apply (tok_at_pos st1 (pre ++ [imp]) arg post). split; [rewrite Ht1, <- app_assoc; reflexivity|rewrite app_length; cbn [length]; lia]. }
+    rewrite Hf, Hlg. destruct ids as [|i0 ids']; [congruence|]. exact Hif. }
+  rewrite Himp.
   f_equal. unfold st_imp. cbn [st1 set_cursor p_keys p_btoks p_eof p_snips p_imports]. f_equal. lia.
 Qed.
 
 Lemma directives_lines : forall ls done nxt post f st,
   at_end st done (flat_lines ls ++ nxt :: post) ->
-  lines_ok env ls nxt = true -> (length (flat_lines ls) < f)%nat ->
+  lines_ok ls nxt = true -> (length (flat_lines ls) < f)%nat ->
   directives env maxi globs files (length ls + f) st =
   directives env maxi globs files f
     (st_with st (done ++ exp_lines env ls ++ nxt :: post) (Z.of_nat (length (done ++ exp_lines env ls)) - 1)
@@ -859,8 +889,7 @@ Proof.
     assert (Hend1 : at_end st1 (done ++ [d]) (seg ++ flat_lines r ++ nxt :: post)).
     { apply at_end_pos. rewrite <- app_assoc in Hpos. exact Hpos. }
     assert (Hpo : post_ok (last (map (exp_tok env) seg) d) (flat_lines r ++ nxt :: post)).
-    { unfold follow_ok in Hfol. apply andb_true_iff in Hfol as [H1 H2]. apply negb_true_iff in H1.
-      destruct r as [|[d' sg'] r']; cbn; auto. }
+    { apply (post_ok_follow _ _ _ _ _ _ Hfol). }
     rewrite (directive_ok env maxi globs files _ _ _ _ (length r + f) _ Hend1 Hline ltac:(lia) Hpo).
     match goal with |- directives _ _ _ _ _ ?s = _ => set (st2 := s) end.
     assert (Hend2 : at_end st2 (done ++ exp_line env (d, seg)) (flat_lines r ++ nxt :: post)).
@@ -869,6 +898,22 @@ Proof.
     f_equal. unfold st2. rewrite st_with_with. unfold st_with. cbn [st1 set_cursor p_keys p_eof p_snips p_imports p_btoks push_lines fold_left].
     rewrite exp_lines_cons. unfold exp_line. cbn [fst snd].
     f_equal; repeat (rewrite <- ?app_assoc; cbn [app]); reflexivity.
+Qed.
+
+(* an import at directive level: the loop continues on the spliced list, one unit of fuel later *)
+Lemma directives_import done imp arg post pat toks f st :
+  at_end st done (imp :: arg :: post) -> t_text imp = IMPORT ->
+  import_ready st imp arg post pat toks -> (maxi <? p_imports st + 1)%N = false ->
+  directives env maxi globs files (S f) st =
+  directives env maxi globs files f
+    (st_imp st (done ++ map (set_imp (p_imports st + 1)) toks ++ post) (Z.of_nat (length done) - 1)).
+Proof.
+  intros Hend Himp Hready Hcap.
+  destruct (p_next_end2 _ _ _ _ Hend) as [Hn Hpos]. cbn [directives]. rewrite Hn. cbn [negb].
+  rewrite (pval_pos _ _ _ _ Hpos), Himp. change (beq IMPORT RBRACE) with false. change (beq IMPORT IMPORT) with true. cbn iota.
+  assert (Hready' : import_ready (set_cursor st (p_cursor st + 1)) imp arg post pat toks) by exact Hready.
+  rewrite (do_import_ok _ _ _ _ _ _ _ Hpos Hready') by exact Hcap.
+  reflexivity.
 Qed.
 
 (* ---- import chains that never end: every reachable file is "lines; import next; rest" ---- *)
@@ -881,30 +926,59 @@ Proof.
   induction ls as [|l r IH]; [cbn; lia|]. rewrite flat_lines_cons. cbn [length]. rewrite app_length. lia.
 Qed.
 
+(* the tokens of a file as they stand after an import: all marked with the import's number *)
+Definition tg (o : option N) (t : token) : token := match o with None => t | Some k => set_imp k t end.
+Definition tg_line (o : option N) (l : dline) : dline := (tg o (fst l), map (tg o) (snd l)).
+Definition tg_node (o : option N) (nd : node) : node :=
+  {| n_lines := map (tg_line o) (n_lines nd); n_imp := tg o (n_imp nd); n_arg := tg o (n_arg nd);
+     n_tail := map (tg o) (n_tail nd); n_pat := n_pat nd; n_next := n_next nd |}.
+Lemma tg_text o t : t_text (tg o t) = t_text t.
+Proof. destruct o; reflexivity. Qed.
+Lemma tg_file o t : t_file (tg o t) = t_file t.
+Proof. destruct o; reflexivity. Qed.
+Lemma flat_lines_tg o ls : flat_lines (map (tg_line o) ls) = map (tg o) (flat_lines ls).
+Proof.
+  induction ls as [|l r IH]; [reflexivity|]. cbn [map]. rewrite !flat_lines_cons, IH.
+  cbn [tg_line fst snd map]. rewrite map_app. reflexivity.
+Qed.
+Lemma node_toks_tg o nd : node_toks (tg_node o nd) = map (tg o) (node_toks nd).
+Proof.
+  unfold node_toks. cbn [tg_node n_lines n_imp n_arg n_tail]. rewrite flat_lines_tg, map_app. reflexivity.
+Qed.
+
 Section Chain.
 Variable graph : N -> option node.     (* the files of the chain (and the importing block) *)
 Variable L : nat.                      (* bound on the tokens before the import in each of them *)
 
-(* a token that is not on the line of any import argument of the chain *)
-Definition far (y : token) : Prop := forall id nd, graph id = Some nd -> same_line (n_arg nd) y = false.
+(* a token that is not on the line of any import argument of the chain (however that is marked) *)
+Definition far (y : token) : Prop := forall id nd o, graph id = Some nd -> same_line (tg o (n_arg nd)) y = false.
 
+(* the line structure is required of the file's tokens as written and as marked by an import *)
 Definition chain_node (nd : node) : Prop :=
-  lines_ok env (n_lines nd) (n_imp nd) = true /\ t_text (n_imp nd) = IMPORT /\
-  same_line (n_imp nd) (n_arg nd) = true /\ renv env (t_text (n_arg nd)) = n_pat nd /\ n_pat nd <> [] /\
-  Forall far (n_tail nd) /\
+  (forall o, lines_ok (n_lines (tg_node o nd)) (n_imp (tg_node o nd)) = true /\
+             same_line (n_imp (tg_node o nd)) (n_arg (tg_node o nd)) = true /\
+             Forall far (n_tail (tg_node o nd))) /\
+  t_text (n_imp nd) = IMPORT /\
+  renv env (t_text (n_arg nd)) = n_pat nd /\ n_pat nd <> [] /\
   glob_ok (n_pat nd) = true /\ lookup_g globs (t_file (n_arg nd)) (n_pat nd) = Some [n_next nd] /\
   (length (flat_lines (n_lines nd)) <= L)%nat /\
   exists nd', graph (n_next nd) = Some nd' /\ lookup_f files (n_next nd) = Some (Some (node_toks nd')).
 Definition closed_chain : Prop := forall id nd, graph id = Some nd -> chain_node nd.
 
-Lemma chain_directives : closed_chain -> forall r id nd done post st fuel,
-  graph id = Some nd -> at_end st done (node_toks nd ++ post) -> Forall far post -> p_snips st = [] ->
+Lemma chain_directives : closed_chain -> forall r id nd0 o done post st fuel,
+  graph id = Some nd0 -> at_end st done (node_toks (tg_node o nd0) ++ post) -> Forall far post -> p_snips st = [] ->
   (N.to_nat (p_imports st) + r = N.to_nat maxi)%nat ->
   (S r * (L + 2) + L <= fuel)%nat ->
   directives env maxi globs files fuel st = PErr ECycle.
 Proof.
-  intros Hclosed. induction r as [|r IH]; intros id nd done post st fuel Hg Hend Hfar Hsn Hbud Hfuel;
-    destruct (Hclosed _ _ Hg) as (Hlines & Himp & Hsame & Hpat & Hne & Htail & Hglob & Hlg & HL & nd' & Hg' & Hf');
+  intros Hclosed. induction r as [|r IH]; intros id nd0 o done post st fuel Hg Hend Hfar Hsn Hbud Hfuel;
+    destruct (Hclosed _ _ Hg) as (Htag & Himp0 & Hpat0 & Hne & Hglob & Hlg0 & HL0 & nd' & Hg' & Hf');
+    destruct (Htag o) as (Hlines & Hsame & Htail);
+    set (nd := tg_node o nd0) in *;
+    assert (Himp : t_text (n_imp nd) = IMPORT) by (cbn [nd tg_node n_imp]; rewrite tg_text; exact Himp0);
+    assert (Hpat : renv env (t_text (n_arg nd)) = n_pat nd) by (cbn [nd tg_node n_arg n_pat]; rewrite tg_text; exact Hpat0);
+    assert (Hlg : lookup_g globs (t_file (n_arg nd)) (n_pat nd) = Some [n_next nd]) by (cbn [nd tg_node n_arg n_pat n_next]; rewrite tg_file; exact Hlg0);
+    assert (HL : (length (flat_lines (n_lines nd)) <= L)%nat) by (cbn [nd tg_node n_lines]; rewrite flat_lines_tg, map_length; exact HL0);
     rewrite Nat.mul_succ_l in Hfuel;
     pose proof (lines_le_flat (n_lines nd)) as Hll.
   all: unfold node_toks in Hend; rewrite <- app_assoc in Hend; cbn [app] in Hend.
@@ -920,18 +994,19 @@ Proof.
   all: assert (Hfar2 : Forall far (n_tail nd ++ post)) by (apply Forall_app; split; assumption).
   all: assert (Hready : import_ready st2 (n_imp nd) (n_arg nd) (n_tail nd ++ post) (n_pat nd) (node_toks nd' ++ []))
         by (repeat split; try assumption;
-            [ destruct (n_tail nd ++ post) as [|y tl]; [exact I|inversion Hfar2 as [|? ? Hy _]; exact (Hy _ _ Hg)]
-            | cbn [st2 st1 set_cursor st_with p_snips]; rewrite Hsn; reflexivity
-            | exists [n_next nd]; repeat split; [discriminate|exact Hlg|cbn [import_files]; rewrite Hf'; reflexivity] ]).
+            [ destruct (n_tail nd ++ post) as [|y tl]; [exact I|inversion Hfar2 as [|? ? Hy _]; exact (Hy _ _ o Hg)]
+            | right; repeat split; try assumption;
+              [ cbn [st2 st1 set_cursor st_with p_snips]; rewrite Hsn; reflexivity
+              | exists [n_next nd]; repeat split; [discriminate|exact Hlg|cbn [import_files]; cbn [nd tg_node n_next]; rewrite Hf'; reflexivity] ] ]).
   - (* budget exhausted *)
     rewrite (do_import_over _ _ _ _ _ _ _ Hpos Hready); [reflexivity|].
     cbn [st2 st1 set_cursor st_with p_imports]. apply N.ltb_lt. lia.
   - rewrite (do_import_ok _ _ _ _ _ _ _ Hpos Hready).
     2:{ cbn [st2 st1 set_cursor st_with p_imports]. apply N.ltb_ge. lia. }
     match goal with |- directives _ _ _ _ f2 ?s = _ => set (st3 := s) end.
-    apply (IH (n_next nd) nd' (done ++ exp_lines env (n_lines nd)) (n_tail nd ++ post) st3 f2 Hg').
+    apply (IH (n_next nd) nd' (Some (p_imports st2 + 1)) (done ++ exp_lines env (n_lines nd)) (n_tail nd ++ post) st3 f2 Hg').
     + split; cbn [st3 st_imp set_cursor p_tokens p_cursor].
-      * rewrite app_nil_r, <- !app_assoc. reflexivity.
+      * rewrite node_toks_tg, app_nil_r, <- !app_assoc. reflexivity.
       * lia.
     + exact Hfar2.
     + cbn [st3 st_imp set_cursor p_snips st2 st1 st_with]. exact Hsn.
@@ -960,20 +1035,243 @@ Proof.
   rewrite (addr_ok env maxi globs files _ _ _ _ _ (S f) _ false Hend0 Hkeys Hlb ltac:(lia)).
   cbn [st_keys p_eof reset_block st1 set_cursor init_st p_keys app]. rewrite Hsn.
   match goal with |- context [block_contents _ _ _ _ _ ?s] => set (st2 := s) end.
-  assert (Hpos2 : at_pos st2 (k :: ks) lb (node_toks entry ++ post)).
-  { split; cbn [st2 p_tokens p_cursor app]; [reflexivity|reflexivity]. }
+  assert (Hpos2 : at_pos st2 (k :: ks) lb (node_toks (tg_node None entry) ++ post)).
+  { split; cbn [st2 p_tokens p_cursor app]; [rewrite node_toks_tg, map_id; reflexivity|reflexivity]. }
   unfold block_contents. rewrite (pval_pos _ _ _ _ Hpos2), Hlb. change (beq LBRACE LBRACE) with true. cbn iota.
-  rewrite (chain_directives Hclosed (N.to_nat maxi) id0 entry ((k :: ks) ++ [lb]) post st2 (S f) Hg
+  rewrite (chain_directives Hclosed (N.to_nat maxi) id0 entry None ((k :: ks) ++ [lb]) post st2 (S f) Hg
              (proj2 (at_end_pos _ _ _ _) Hpos2) Hfar eq_refl ltac:(cbn; lia) ltac:(lia)).
   reflexivity.
 Qed.
 End Chain.
+
+(* ================= snippets: the split text parses like the inline text ================= *)
+(* What the repair of F-C10-4/5 establishes about the marks: a token spliced in by import number n
+   is on a new line relative to every token that does not carry that number (for NextLine /
+   nextOnSameLine / NextBlock and for NextArg alike), and among themselves the spliced tokens keep
+   exactly the line structure of their definition. *)
+Lemma imported_boundary_l a b n : t_imp a <> n ->
+  next_on_new_line a (set_imp n b) = true /\ same_line a (set_imp n b) = false.
+Proof.
+  intros H. unfold next_on_new_line, same_line. cbn [set_imp t_imp t_file t_line].
+  apply N.eqb_neq in H. rewrite H. cbn [negb]. rewrite orb_true_r, andb_false_r. split; reflexivity.
+Qed.
+Lemma imported_boundary_r a b n : t_imp b <> n ->
+  next_on_new_line (set_imp n a) b = true /\ same_line (set_imp n a) b = false.
+Proof.
+  intros H. unfold next_on_new_line, same_line. cbn [set_imp t_imp t_file t_line].
+  assert (H' : (n =? t_imp b) = false) by (apply N.eqb_neq; congruence). rewrite H'.
+  cbn [negb]. rewrite orb_true_r, andb_false_r. split; reflexivity.
+Qed.
+Lemma imported_interior a b n : t_imp a = t_imp b ->
+  next_on_new_line (set_imp n a) (set_imp n b) = next_on_new_line a b /\
+  same_line (set_imp n a) (set_imp n b) = same_line a b.
+Proof.
+  intros H. unfold next_on_new_line, same_line, tok_breaks. cbn [set_imp t_imp t_file t_line t_text t_envnl].
+  rewrite H, !N.eqb_refl. split; reflexivity.
+Qed.
+
+Lemma imported_tokens_line_structure a b n :
+  (t_imp a <> n -> next_on_new_line a (set_imp n b) = true /\ same_line a (set_imp n b) = false) /\
+  (t_imp b <> n -> next_on_new_line (set_imp n a) b = true /\ same_line (set_imp n a) b = false) /\
+  (t_imp a = t_imp b -> next_on_new_line (set_imp n a) (set_imp n b) = next_on_new_line a b /\
+                        same_line (set_imp n a) (set_imp n b) = same_line a b).
+Proof.
+  split; [apply imported_boundary_l|]. split; [apply imported_boundary_r|apply imported_interior].
+Qed.
+Lemma env_value_keeps_line_structure (t u : token) :
+  next_on_new_line (exp_tok env t) u = next_on_new_line t u /\
+  same_line (exp_tok env t) u = same_line t u /\
+  next_on_new_line u (exp_tok env t) = next_on_new_line u t /\
+  same_line u (exp_tok env t) = same_line u t.
+Proof.
+  split; [apply nnl_retext_l|]. split; [apply same_line_retext_l|]. split; reflexivity.
+Qed.
+
+Section Snippets.
+Variable snips : list (bytes * list token).
+Variable post : list token.            (* what follows the directive *)
+
+(* [seg_exp prev n nest src out n' k]: after the token [prev], with import counter [n], at brace depth
+   [nest], the rest [src] of a directive AS WRITTEN — in which an `import <snippet>` may stand at the
+   start of any line inside a sub-block, the snippet bodies again containing such imports, to any
+   depth — is the same directive as the token list [out] written INLINE: [out] is [src] with every
+   such import statement replaced by the tokens of the snippet (marked with the number of the
+   import), recursively; [n'] is the counter afterwards and [k] the number of parser steps.  The
+   side conditions of the token rules are those of the inline guard [line_ok]. *)
+Inductive seg_exp : token -> N -> Z -> list token -> list token -> N -> nat -> Prop :=
+| se_nil prev n : seg_exp prev n 0%Z [] [] n 0
+| se_lb prev n nest x r out n' k : beq (t_text x) LBRACE = true ->
+    seg_exp x n (nest + 1)%Z r out n' k -> seg_exp prev n nest (x :: r) (x :: out) n' (S k)
+| se_rb prev n nest x r out n' k : beq (t_text x) LBRACE = false ->
+    (next_on_new_line prev x && (nest =? 0)%Z) = false -> beq (t_text x) RBRACE = true -> (0 <? nest)%Z = true ->
+    seg_exp x n (nest - 1)%Z r out n' k -> seg_exp prev n nest (x :: r) (x :: out) n' (S k)
+| se_tok prev n nest x r out n' k : beq (t_text x) LBRACE = false ->
+    (next_on_new_line prev x && (nest =? 0)%Z) = false -> beq (t_text x) RBRACE = false ->
+    (beq (t_text x) IMPORT && next_on_new_line prev x) = false ->
+    seg_exp x n nest r out n' k -> seg_exp prev n nest (x :: r) (x :: out) n' (S k)
+| se_imp prev n nest imp arg r body out n' k :
+    t_text imp = IMPORT -> next_on_new_line prev imp = true -> (nest =? 0)%Z = false ->
+    same_line imp arg = true -> renv env (t_text arg) <> [] ->
+    match r ++ post with [] => True | y :: _ => same_line arg y = false end ->
+    lookup_s snips (renv env (t_text arg)) = Some body ->
+    (maxi <? n + 1)%N = false ->
+    seg_exp prev (n + 1) nest (map (set_imp (n + 1)) body ++ r) out n' k ->
+    seg_exp prev n nest (imp :: arg :: r) out n' (S k).
+
+(* the expansion satisfies the guard of the structure theorem: it is a well-formed inline line *)
+Lemma seg_exp_line_ok prev n nest src out n' k :
+  seg_exp prev n nest src out n' k -> line_ok prev out nest = true.
+Proof.
+  induction 1 as [| ? ? ? ? ? ? ? ? Hlb _ IH | ? ? ? ? ? ? ? ? Hlb Hnl Hrb Hn _ IH
+                  | ? ? ? ? ? ? ? ? Hlb Hnl Hrb Him _ IH | ]; cbn [line_ok].
+  - reflexivity.
+  - rewrite Hlb. exact IH.
+  - rewrite Hlb, Hnl, Hrb, Hn. exact IH.
+  - rewrite Hlb, Hnl, Hrb, Him. exact IH.
+  - assumption.
+Qed.
+Lemma seg_exp_len prev n nest src out n' k :
+  seg_exp prev n nest src out n' k -> (length out <= k)%nat.
+Proof. induction 1; cbn [length]; lia. Qed.
+
+Definition st_out (st : pst) (toks : list token) (c : Z) (bt : list (bytes * list token)) (n : N) : pst :=
+  {| p_tokens := toks; p_cursor := c; p_keys := p_keys st; p_btoks := bt; p_eof := p_eof st;
+     p_snips := p_snips st; p_imports := n |}.
+
+Lemma last_cons_def {A} (x : A) l d : last (x :: l) d = last l x.
+Proof. revert x d. induction l as [|y l IH]; intros x d; [reflexivity|]. change (last (x :: y :: l) d) with (last (y :: l) d). change (last (y :: l) x) with (last (y :: l) x). rewrite !IH. reflexivity. Qed.
+
+(* the parser on the text AS WRITTEN reaches exactly the state it reaches on the inline tokens *)
+Lemma dloop_exp prev n nest src out n' k : seg_exp prev n nest src out n' k ->
+  forall pre cur fuel dir st,
+  at_pos st pre cur (src ++ post) -> (forall y, next_on_new_line cur y = next_on_new_line prev y) ->
+  p_snips st = snips -> p_imports st = n -> (k < fuel)%nat ->
+  post_ok (last out prev) post ->
+  directive_loop env maxi globs files fuel st dir nest =
+  POk (st_out st (pre ++ cur :: map (exp_tok env) out ++ post) (Z.of_nat (length pre + length out))
+              (push_all (p_btoks st) dir (map (exp_tok env) out)) n').
+Proof.
+  induction 1 as [ prev n
+                 | prev n nest x r out n' k Hlb Hse IH
+                 | prev n nest x r out n' k Hlb Hnl Hrb Hn Hse IH
+                 | prev n nest x r out n' k Hlb Hnl Hrb Him Hse IH
+                 | prev n nest imp arg r body out n' k Himp Hnl Hnest Hsame Hne Hpost Hlook Hcap Hse IH ];
+    intros pre cur fuel dir st Hpos Hsim Hsn Hcnt Hfuel Hpo.
+  - (* end of the directive *)
+    destruct fuel as [|f]; [lia|]. cbn [directive_loop app map length push_all fold_left last] in *.
+    destruct post as [|u post'].
+    + rewrite (p_next_end _ _ _ Hpos). cbn [negb]. change (0 <? 0)%Z with false. cbn iota.
+      destruct Hpos as [Ht Hc]. f_equal. unfold st_out. destruct st; cbn in *. subst. f_equal. lia.
+    + destruct (p_next_more _ _ _ _ _ Hpos) as [Hn1 Hpos1]. rewrite Hn1. cbn [negb].
+      destruct Hpo as [Hu Hnlu].
+      rewrite (pval_pos _ _ _ _ Hpos1), Hu, (is_new_line_pos _ _ _ _ _ Hpos1), Hsim, Hnlu.
+      cbn [andb]. change (0 =? 0)%Z with true. cbn iota.
+      destruct Hpos as [Ht Hc]. f_equal. unfold st_out, set_cursor. destruct st; cbn in *. subst. f_equal. lia.
+  - (* "{" *)
+    destruct fuel as [|f]; [lia|]. cbn [app] in Hpos. destruct (p_next_more _ _ _ _ _ Hpos) as [Hn1 Hpos1].
+    cbn [directive_loop]. rewrite Hn1. cbn [negb].
+    set (st1 := set_cursor st (p_cursor st + 1)) in *.
+    rewrite (pval_pos _ _ _ _ Hpos1), (tok_at_pos _ _ _ _ Hpos1), Hlb.
+    match goal with |- directive_loop _ _ _ _ f ?s dir _ = _ => set (st2 := s) end.
+    assert (Hpos2 : at_pos st2 (pre ++ [cur]) (exp_tok env x) (r ++ post)).
+    { split; [cbn [st2 push_tok p_tokens]; rewrite (set_tok_text_pos _ _ _ _ _ Hpos1); reflexivity|destruct Hpos1 as [_ Hc1]; exact Hc1]. }
+    rewrite last_cons_def in Hpo.
+    rewrite (IH _ _ f dir st2 Hpos2 (fun y => nnl_exp_l env x y) Hsn Hcnt ltac:(lia) Hpo).
+    f_equal. unfold st_out. cbn [st2 push_tok set_tok_text set_cursor st1 p_keys p_eof p_snips p_imports p_btoks map length push_all fold_left].
+    rewrite <- app_assoc. cbn [app]. rewrite app_length. cbn [length]. f_equal. lia.
+  - (* "}" *)
+    destruct fuel as [|f]; [lia|]. cbn [app] in Hpos. destruct (p_next_more _ _ _ _ _ Hpos) as [Hn1 Hpos1].
+    cbn [directive_loop]. rewrite Hn1. cbn [negb].
+    set (st1 := set_cursor st (p_cursor st + 1)) in *.
+    rewrite (pval_pos _ _ _ _ Hpos1), (is_new_line_pos _ _ _ _ _ Hpos1), (tok_at_pos _ _ _ _ Hpos1), Hlb, Hsim, Hnl, Hrb, Hn.
+    cbn [andb].
+    match goal with |- directive_loop _ _ _ _ f ?s dir _ = _ => set (st2 := s) end.
+    assert (Hpos2 : at_pos st2 (pre ++ [cur]) (exp_tok env x) (r ++ post)).
+    { split; [cbn [st2 push_tok p_tokens]; rewrite (set_tok_text_pos _ _ _ _ _ Hpos1); reflexivity|destruct Hpos1 as [_ Hc1]; exact Hc1]. }
+    rewrite last_cons_def in Hpo.
+    rewrite (IH _ _ f dir st2 Hpos2 (fun y => nnl_exp_l env x y) Hsn Hcnt ltac:(lia) Hpo).
+    f_equal. unfold st_out. cbn [st2 push_tok set_tok_text set_cursor st1 p_keys p_eof p_snips p_imports p_btoks map length push_all fold_left].
+    rewrite <- app_assoc. cbn [app]. rewrite app_length. cbn [length]. f_equal. lia.
+  - (* an ordinary token *)
+    destruct fuel as [|f]; [lia|]. cbn [app] in Hpos. destruct (p_next_more _ _ _ _ _ Hpos) as [Hn1 Hpos1].
+    cbn [directive_loop]. rewrite Hn1. cbn [negb].
+    set (st1 := set_cursor st (p_cursor st + 1)) in *.
+    rewrite (pval_pos _ _ _ _ Hpos1), (is_new_line_pos _ _ _ _ _ Hpos1), (tok_at_pos _ _ _ _ Hpos1), Hlb, Hsim, Hnl, Hrb, Him.
+    cbn [andb].
+    match goal with |- directive_loop _ _ _ _ f ?s dir _ = _ => set (st2 := s) end.
+    assert (Hpos2 : at_pos st2 (pre ++ [cur]) (exp_tok env x) (r ++ post)).
+    { split; [cbn [st2 push_tok p_tokens]; rewrite (set_tok_text_pos _ _ _ _ _ Hpos1); reflexivity|destruct Hpos1 as [_ Hc1]; exact Hc1]. }
+    rewrite last_cons_def in Hpo.
+    rewrite (IH _ _ f dir st2 Hpos2 (fun y => nnl_exp_l env x y) Hsn Hcnt ltac:(lia) Hpo).
+    f_equal. unfold st_out. cbn [st2 push_tok set_tok_text set_cursor st1 p_keys p_eof p_snips p_imports p_btoks map length push_all fold_left].
+    rewrite <- app_assoc. cbn [app]. rewrite app_length. cbn [length]. f_equal. lia.
+  - (* `import <snippet>` at the start of a line inside a sub-block *)
+    destruct fuel as [|f]; [lia|]. cbn [app] in Hpos. destruct (p_next_more _ _ _ _ _ Hpos) as [Hn1 Hpos1].
+    cbn [directive_loop]. rewrite Hn1. cbn [negb].
+    set (st1 := set_cursor st (p_cursor st + 1)) in *.
+    rewrite (pval_pos _ _ _ _ Hpos1), (is_new_line_pos _ _ _ _ _ Hpos1), Himp, Hsim, Hnl, Hnest.
+    change (beq IMPORT LBRACE) with false. change (beq IMPORT RBRACE) with false. change (beq IMPORT IMPORT) with true.
+    cbn [andb]. cbn iota.
+    assert (Hready : import_ready st1 imp arg (r ++ post) (renv env (t_text arg)) body).
+    { repeat split; try assumption. left. cbn [st1 set_cursor p_snips]. rewrite Hsn. exact Hlook. }
+    rewrite (do_import_ok _ _ _ _ _ _ _ Hpos1 Hready) by (cbn [st1 set_cursor p_imports]; rewrite Hcnt; exact Hcap).
+    match goal with |- directive_loop _ _ _ _ f ?s dir _ = _ => set (st2 := s) end.
+    assert (Hpos2 : at_pos st2 pre cur ((map (set_imp (n + 1)) body ++ r) ++ post)).
+    { destruct Hpos as [Ht Hc]. split; cbn [st2 st_imp set_cursor st1 p_tokens p_cursor p_imports].
+      - rewrite Hcnt, <- !app_assoc. reflexivity.
+      - rewrite app_length. cbn [length]. lia. }
+    rewrite (IH _ _ f dir st2 Hpos2 Hsim Hsn ltac:(cbn [st2 st_imp set_cursor st1 p_imports]; rewrite Hcnt; reflexivity) ltac:(lia) Hpo).
+    reflexivity.
+Qed.
+
+(* THE EQUIVALENCE: a directive written with snippet imports (at the start of lines inside its
+   sub-blocks, nested to any depth, snippets importing snippets) is parsed into exactly the state
+   into which the directive written inline — the snippet tokens in place of the import statements —
+   is parsed; only the import counter differs.  In particular the directive's tokens, their order
+   and their line structure are those of the inline text. *)
+Definition with_imports (n : N) (r : pres pst) : pres pst :=
+  match r with
+  | POk st => POk (st_out st (p_tokens st) (p_cursor st) (p_btoks st) n)
+  | e => e
+  end.
+Theorem import_equiv_snippet d src out n' k done fuel st :
+  seg_exp d (p_imports st) 0%Z src out n' k ->
+  at_end st (done ++ [d]) (src ++ post) -> p_snips st = snips -> (k < fuel)%nat ->
+  post_ok (last out d) post ->
+  directive env maxi globs files fuel st =
+  with_imports n' (directive env maxi globs files fuel
+                     (st_with st ((done ++ [d]) ++ out ++ post) (p_cursor st) (p_btoks st))) /\
+  exists r, directive env maxi globs files fuel st = POk r.
+Proof.
+  intros Hse Hend Hsn Hfuel Hpo.
+  pose proof (seg_exp_line_ok _ _ _ _ _ _ _ Hse) as Hline.
+  pose proof (seg_exp_len _ _ _ _ _ _ _ Hse) as Hlen.
+  set (sti := st_with st ((done ++ [d]) ++ out ++ post) (p_cursor st) (p_btoks st)).
+  assert (Hendi : at_end sti (done ++ [d]) (out ++ post)).
+  { destruct Hend as [_ Hc]. split; [reflexivity|exact Hc]. }
+  assert (Hpoi : post_ok (last (map (exp_tok env) out) d) post).
+  { destruct post as [|u post']; [exact I|]. destruct Hpo as [H1 H2]. split; [exact H1|].
+    rewrite nnl_last_exp. exact H2. }
+  rewrite (directive_ok env maxi globs files _ _ _ _ fuel sti Hendi Hline ltac:(lia) Hpoi).
+  assert (Hdir : directive env maxi globs files fuel st =
+    POk (st_out st ((done ++ exp_line env (d, out)) ++ post) (Z.of_nat (length (done ++ exp_line env (d, out))) - 1)
+                (push_line env (p_btoks st) (d, out)) n')).
+  { apply at_end_pos in Hend. unfold directive. rewrite (tok_at_pos _ _ _ _ Hend).
+    assert (Hpos' : at_pos (push_tok st (renv env (t_text d)) d) done d (src ++ post)) by exact Hend.
+    rewrite (dloop_exp _ _ _ _ _ _ _ Hse done d fuel (renv env (t_text d)) _ Hpos' (fun y => eq_refl) Hsn eq_refl Hfuel Hpo).
+    f_equal. unfold st_out, push_line, exp_line. cbn [push_tok p_keys p_btoks p_eof p_snips p_imports fst snd].
+    rewrite <- !app_assoc. cbn [app]. rewrite !app_length. cbn [length]. rewrite map_length.
+    f_equal. lia. }
+  split; [|eexists; exact Hdir].
+  rewrite Hdir. cbn [with_imports]. unfold st_out, st_with, sti. cbn [p_tokens p_cursor p_btoks p_keys p_eof p_snips st_with]. reflexivity.
+Qed.
+End Snippets.
 End Imports.
 
 (* a concrete chain: the main block imports c.conf, which imports itself *)
 Module CycleExample.
 Local Open Scope string_scope.
-Definition tk (f : N) (l : Z) (s : string) : token := {| t_file := f; t_line := l; t_text := bs s |}.
+Definition tk (f : N) (l : Z) (s : string) : token := {| t_file := f; t_line := l; t_text := bs s; t_imp := 0; t_envnl := 0%Z |}.
 Definition entry : node :=
   {| n_lines := [(tk 0 2 "gzip", [])]; n_imp := tk 0 3 "import"; n_arg := tk 0 3 "c.conf"; n_tail := [];
      n_pat := bs "c.conf"; n_next := 1 |}.
@@ -986,19 +1284,23 @@ Definition files : list (N * option (list token)) := [(1, Some (node_toks node1)
 Definition globs : list ((N * bytes) * list N) := [((0, bs "c.conf"), [1]); ((1, bs "c.conf"), [1])].
 Definition rb : token := tk 0 4 "}".
 
+Ltac sl_tac := unfold same_line, tg, set_imp; cbn; rewrite ?andb_false_r; reflexivity.
 Ltac far_tac :=
-  let i := fresh "i" in let n := fresh "n" in let Hi := fresh "Hi" in
-  intros i n Hi; unfold graph in Hi;
-  destruct (i =? 0); [injection Hi as <-; reflexivity|];
-  destruct (i =? 1); [injection Hi as <-; reflexivity|discriminate].
+  let i := fresh "i" in let n := fresh "n" in let o' := fresh "o" in let Hi := fresh "Hi" in
+  intros i n o' Hi; unfold graph in Hi;
+  destruct (i =? 0); [injection Hi as <-; destruct o'; sl_tac|];
+  destruct (i =? 1); [injection Hi as <-; destruct o'; sl_tac|discriminate].
 
 Lemma chain_closed : closed_chain [] globs files graph 2 .
 Proof.
   intros id nd H. unfold graph in H.
   destruct (id =? 0); [injection H as <-|destruct (id =? 1); [injection H as <-|discriminate]].
   all: unfold chain_node.
-  all: split; [vm_compute; reflexivity|]; split; [reflexivity|]; split; [vm_compute; reflexivity|];
-       split; [vm_compute; reflexivity|]; split; [discriminate|]; split; [repeat constructor; far_tac|];
+  all: split; [intros o; split; [|split];
+                [ destruct o; [cbn; unfold follow_ok, next_on_new_line; cbn; rewrite ?N.eqb_refl; reflexivity|vm_compute; reflexivity]
+                | destruct o; [unfold same_line; cbn; rewrite ?N.eqb_refl; reflexivity|vm_compute; reflexivity]
+                | destruct o; cbn [tg_node n_tail map entry node1]; repeat constructor; far_tac ]|].
+  all: split; [reflexivity|]; split; [vm_compute; reflexivity|]; split; [discriminate|];
        split; [vm_compute; reflexivity|]; split; [vm_compute; reflexivity|]; split; [vm_compute; lia|];
        exists node1; split; reflexivity.
 Qed.
@@ -1017,6 +1319,47 @@ dir2 after
 ")) = node_toks node1.
 Proof. split; vm_compute; reflexivity. Qed.
 End CycleExample.
+
+(* the former witness of F-C10-5, as tokens: a snippet whose body starts with an import, used inside
+   a sub-block after a later line *)
+Module SnippetExample.
+Local Open Scope string_scope.
+Definition split := bs "(t) {
+	inner1 x
+}
+(s) {
+	import t
+}
+a.com {
+	proxy / b {
+		opt y
+		import s
+	}
+}
+".
+Definition inline := bs "a.com {
+	proxy / b {
+		opt y
+		inner1 x
+	}
+}
+".
+Definition tk (l : Z) (s : string) (i : N) : token := {| t_file := 0; t_line := l; t_text := bs s; t_imp := i; t_envnl := 0%Z |}.
+Definition snips : list (bytes * list token) := [(bs "t", [tk 2 "inner1" 0; tk 2 "x" 0]); (bs "s", [tk 5 "import" 0; tk 5 "t" 0])].
+Definition d := tk 8 "proxy" 0.
+Definition src := [tk 8 "/" 0; tk 8 "b" 0; tk 8 "{" 0; tk 9 "opt" 0; tk 9 "y" 0; tk 10 "import" 0; tk 10 "s" 0; tk 11 "}" 0].
+Definition out := [tk 8 "/" 0; tk 8 "b" 0; tk 8 "{" 0; tk 9 "opt" 0; tk 9 "y" 0; tk 2 "inner1" 2; tk 2 "x" 2; tk 11 "}" 0].
+Definition post := [tk 12 "}" 0].
+Ltac side := vm_compute; first [reflexivity | discriminate | exact I].
+Ltac step :=
+  first [ eapply se_nil
+        | eapply se_lb; [side|]
+        | eapply se_rb; [side|side|side|side|]
+        | eapply se_tok; [side|side|side|side|]
+        | eapply se_imp; [side|side|side|side|side|side|side|side|cbn [map app set_imp t_file t_line t_text t_imp t_envnl]] ].
+Lemma expands : seg_exp [] 100 snips post d 0 0%Z src out 2 10.
+Proof. unfold src, out, d, post, snips. repeat step. Qed.
+End SnippetExample.
 
 (* ================= environment expansion: one pass, no rescanning ================= *)
 Transparent renv.
